@@ -1,5 +1,6 @@
 import PyrexVerif.Proofs.LazyLemmas
 import PyrexVerif.Proofs.SignalsThms
+import PyrexVerif.Proofs.FnAlgebra
 import PyrexVerif.Gen.LazyOps
 import PyrexVerif.Gen.LazyDeps
 set_option linter.unusedVariables false
@@ -60,6 +61,33 @@ theorem C06_safe_rejects :
     safe ["times", "_t0s", "_buffers"] ["times", "_t0s", "_buffers"] false [.clear, .read "values", .mutate "_t0s"] = false ∧
     safe ["times", "_t0s", "_buffers"] ["times", "_t0s", "_buffers"] false [.clear, .mutate "_buffers"] = true := by
   decide
+
+/-! ## augmented assignment / assigning the same object back
+
+`rt.to_point += d`, `sig.times += 0.5` and `p = rt.from_point; p[2] = z; rt.from_point = p` mutate an
+array in place and then hand the *same object* to `__setattr__`.  The model treats this as
+`mutate n f` followed by `assign n v`: `__setattr__` decides on the attribute *name*, never on the
+value, so the assignment clears.  (The translator emits `assign` for an augmented assignment to an
+attribute of self; `C06_augassign_is_assign` shows that nothing is lost.) -/
+
+/-- in-place mutation followed by the assignment of a clearing attribute is exactly the assignment -/
+theorem C06_augassign_is_assign (compute : Name → (Name → Val) → Val) (o : Obj) (n : Name) (f : Val → Val)
+    (v : Val) (hn : n ∈ o.static) :
+    step compute (step compute o (.mutate n f)) (.assign n v) = step compute o (.assign n v) :=
+  mutate_assign_eq_assign o n f v hn
+
+/-- assigning the value the attribute already holds still leaves an empty cache -/
+theorem C06_assign_same_object_clears (compute : Name → (Name → Val) → Val) (o : Obj) (n : Name)
+    (hn : n ∈ o.static) : CacheEmpty (step compute o (.assign n (o.attrs n))) :=
+  assign_same_value_clears o n hn
+
+/-- a `__setattr__` that skipped the clear when "the same object" is assigned would serve a stale
+value after read / in-place mutation / assign-back; the real one does not -/
+theorem C06_identity_shortcut_breaks :
+    let o1 := step demoCompute (step demoCompute demoObj (.read "values")) (.mutate "_buffers" (· + 1))
+    ¬ Coherent demoCompute (stepShortcut demoCompute o1 (.assign "_buffers" (o1.attrs "_buffers"))) ∧
+    Coherent demoCompute (step demoCompute o1 (.assign "_buffers" (o1.attrs "_buffers"))) :=
+  identity_shortcut_breaks
 
 /-! ## the regenerated tables -/
 
@@ -160,7 +188,56 @@ theorem C06_buffers_only_matter_with_filters (d : Sig.FData) (bufs' : List Sig.A
   simp only [Sig.directValues]
   rw [Sig.directWindows_bufs _ _ _ _ bufs' d.bufs _ h]
 
+/-! ### filters as abstract linear operators (`Sig.FilterSem`), window counts, appended filters -/
+
+/-- the abstract evaluation instantiated with the scalar-gain semantics is the executable model -/
+theorem C06_values_abstract_is_model (d : Sig.FData) : Sig.fnValuesA Sig.gainSem d = Sig.fnValues d :=
+  Sig.fnValuesA_gain d
+
+/-- window counts: `n_before = ⌈buffer/dt⌉` (and likewise `n_after`) -/
+theorem C06_window_counts (b dt : Rat) (hq : 0 ≤ b / dt) : Sig.nbuf b dt = (b / dt).ceil :=
+  Sig.nbuf_eq_ceil hq
+
+/-- the value window `[n_before, n_before + len(times))` of the buffer-extended, filtered component
+has exactly one value per time sample, for every linear filter semantics -/
+theorem C06_window_length (F : Sig.FilterSem) (ts : Sig.Arr) (fn t0 fac : Rat) (buf filt w : Sig.Arr)
+    (h : Sig.compValsA F ts fn t0 fac buf filt = some w) : w.length = ts.length :=
+  Sig.compValsA_length F h
+
+/-- scaling the factors scales the values, for every linear filter semantics -/
+theorem C06_values_scale_linear (F : Sig.FilterSem) (d : Sig.FData) (vs : Sig.Arr) (q : Rat)
+    (h : Sig.fnValuesA F d = some vs) :
+    Sig.fnValuesA F { d with facs := Sig.scale q d.facs } = some (Sig.scale q vs) :=
+  Sig.fnValuesA_scale F q h
+
+/-- concatenating component lists adds the values, for every linear filter semantics -/
+theorem C06_values_add_linear (F : Sig.FilterSem) (d e : Sig.FData) (va vb : Sig.Arr) (hts : d.ts = e.ts)
+    (h1 : d.t0s.length = d.fns.length) (h2 : d.facs.length = d.fns.length)
+    (h3 : d.bufs.length = d.fns.length) (h4 : d.filts.length = d.fns.length)
+    (ha : Sig.fnValuesA F d = some va) (hb : Sig.fnValuesA F e = some vb) :
+    Sig.fnValuesA F (d.append e) = some (Sig.addArr va vb) :=
+  Sig.fnValuesA_append F hts h1 h2 h3 h4 ha hb
+
+/-- a component without filters does not see its buffers, for every filter semantics -/
+theorem C06_buffers_irrelevant_without_filters (F : Sig.FilterSem) (ts : Sig.Arr) (fn t0 fac : Rat)
+    (buf w : Sig.Arr) (h : Sig.compValsA F ts fn t0 fac buf [] = some w) :
+    w = ts.map (fun t => Sig.fnEval (Sig.code fn) (t - t0) * fac) :=
+  Sig.compValsA_nil_direct F h
+
+/-- `filter_frequencies(h)` appends `h` to the filter list of *every* component (`Sig.step` on the
+object graph: each inner `_filters[i]` list grows in place), and in the scalar-gain model the
+values are multiplied by the gain of `h`.
+Full statement for frequency-dependent filters (values = Σ crop(F(fsᵢ ++ [h])(factorᵢ·fᵢ))) is the
+definition `Sig.fnValuesA F` evaluated on the appended lists; that the product of responses acts
+in one pass is property C05. -/
+theorem C06_values_filter_append (d : Sig.FData) (vs : Sig.Arr) (c : Rat) (h : Sig.fnValues d = some vs) :
+    Sig.fnValues { d with filts := d.filts.map (· ++ [c]) } = some (Sig.scale (Sig.gain (Sig.code c)) vs) :=
+  Sig.fnValues_filter_append c h
+
 /-! ## non-vacuity -/
+example : 0 ≤ (5 : Rat) / 2 ∧ Sig.nbuf 5 2 = 3 ∧ Sig.nbuf 4 2 = 2 := by decide +kernel
+example : Sig.fnValuesA Sig.gainSem ⟨[0, 1, 2], [3], [0], [1], [[2, 0]], [[0]]⟩ = some [1/2, 3/2, 5/2] := by
+  decide +kernel
 -- the table is not empty and contains the classes the property names
 example : Gen.LazyDeps.classes.length = Gen.LazyOps.table.length ∧ 10 ≤ Gen.LazyDeps.classes.length := by
   decide +kernel
